@@ -73,6 +73,14 @@ pub const PLANT16: [&[u16]; 22] = [
 
 /// filler kinds for byte sources: 0 = ASCII, 1 = 2-byte Latin1 chars, 2 = 3-byte, 3 = 4-byte
 pub fn filler8(kind: usize, len: usize) -> Vec<u8> {
+    // kinds 4 and 5 are ASCII too, but the bytes the converters treat specially inside non-ASCII
+    // text: the space, and punctuation / digits below 0x3C
+    if kind == 4 {
+        return vec![b' '; len];
+    }
+    if kind == 5 {
+        return (0..len).map(|i| b", .0;-\r\n"[i % 8]).collect();
+    }
     let unit: &[u8] = match kind & 3 {
         0 => b"a",
         1 => b"\xC3\xA9",
@@ -90,6 +98,12 @@ pub fn filler8(kind: usize, len: usize) -> Vec<u8> {
 }
 
 pub fn filler16(kind: usize, len: usize) -> Vec<u16> {
+    if kind == 4 {
+        return vec![0x20; len];
+    }
+    if kind == 5 {
+        return (0..len).map(|i| b", .0;-\r\n"[i % 8] as u16).collect();
+    }
     let u: u16 = match kind & 3 {
         0 => 0x61,
         1 => 0xE9,
@@ -104,7 +118,7 @@ pub fn filler16(kind: usize, len: usize) -> Vec<u16> {
 pub fn plant8(kind: usize, len: usize, pos: usize, unit: &[u8]) -> Vec<u8> {
     let mut v = filler8(kind, len);
     // keep filler characters whole before the planted unit
-    if kind & 3 != 0 {
+    if kind < 4 && kind & 3 != 0 {
         let ul = [1usize, 2, 3, 4][kind & 3];
         let whole = pos / ul * ul;
         for b in &mut v[whole..pos.min(len)] {
@@ -117,7 +131,7 @@ pub fn plant8(kind: usize, len: usize, pos: usize, unit: &[u8]) -> Vec<u8> {
         }
     }
     // repair the filler after the planted unit so that the only defect is the planted one
-    if kind & 3 != 0 {
+    if kind < 4 && kind & 3 != 0 {
         let ul = [1usize, 2, 3, 4][kind & 3];
         let end = pos + unit.len();
         let next_whole = (end + ul - 1) / ul * ul;
